@@ -400,7 +400,10 @@ OnPhaseEnd(e, lineNo) ==
                         IF r[1] \in aux.refreshedPhase THEN "F10-input-change-masked-by-concurrent-refresh" ELSE "">> :
                         r \in {r \in aux.finalReads[s] :
                                  <<"file:" \o r[1], s>> \in Deps(st) /\
-                                 \* "the content recorded for that file at the end of the build"
+                                 \* "the content recorded for that file at the end of the build";
+                                 \* a file that the graph itself marks as not up to date (OUTDATED,
+                                 \* PLANNED, MISSING) re-pends its consumers when it comes back
+                                 st.nodes["file:" \o r[1]].fstate \in Available /\
                                  st.nodes["file:" \o r[1]].fhash # r[2]}} :
                     s \in {s \in DOMAIN aux.finalReads : s \in Keys(st) /\ st.nodes[s].sstate = "SUCCEEDED"}}
   IN /\ bad' = bad \o Mk(e, lineNo, "C10", left) \o Mk(e, lineNo, "C19", c19) \o Mk(e, lineNo, "C11", c11)
